@@ -162,7 +162,20 @@ pub fn examine_texts(text_a: &str, text_b: &str, reference: Option<prog::RefRun>
                     }
                     return None;
                 }
-                PanicKind::Panic => return Some((format!("panic:{}", p.site()), which.into(), format!("panicked at {}: {}", p.site(), p.short_msg()))),
+                PanicKind::Panic => {
+                    // did a value outside its static type (C01's monitor) precede the panic? then it is the consequence
+                    // of that finding (e.g. `x := []~ $+` is typed ! and holds 0; a closure folding `x + "a"` panics
+                    // where the reference never evaluates the body)
+                    let text = if which == "A" { text_a } else { text_b };
+                    let m = crate::props::sound::run_text(text, FUEL);
+                    if !m.state.violations.is_empty() || m.state.tainted.is_some() {
+                        if let Some(rep) = rep.as_deref_mut() {
+                            rep.count("not-judged:panic-after-unsound-value");
+                        }
+                        return None;
+                    }
+                    return Some((format!("panic:{}", p.site()), which.into(), format!("panicked at {}: {}", p.site(), p.short_msg())));
+                }
                 k => {
                     if let Some(rep) = rep.as_deref_mut() {
                         rep.inconclusive(&format!("real-run:{k:?}"));
